@@ -63,6 +63,8 @@ def main():
                     v.deviation("grow:%s" % ("asan" if "Sanitizer" in r["stderr"] else (r["end"] or {}).get("outcome", "crash")),
                                 {"script": s, "schedule": r["prefix"], "stderr": r["stderr"][-1200:]})
                     continue
+                if r["end"].get("misuse"):
+                    v.deviation("grow:mutex-misuse", {"script": s, "schedule": r["prefix"], "count": r["end"]["misuse"]})
                 h, final = history_of(r)
                 if final and final["size"] != final["pages"] * 65536:
                     v.deviation("grow:size-field", {"script": s, "final": final})
